@@ -11,7 +11,11 @@ Rule shapes (one head relation per rule, several rules per compiled program):
   optionally a clause AFTER the aggregate that joins on its result; key of the aggregated relation a bound variable,
   a constant, an expression over a bound variable or a wildcard (whole relation); aggregated relation binary (key
   first or second), ternary (projection => repeated values in the aggregated column) or unary (no key);
-  a recursive family (the rule sits in a looping stratum, the aggregate's result feeds the recursion).
+  a recursive family (the rule sits in a looping stratum, the aggregate's result feeds the recursion);
+  the BOUND family (gen_bound_programs): the aggregator is evaluated ONCE by a `let` of the rule and that one value is
+  applied to every group -- `o(k, 0, s) <-- let f = ascent::aggregators::percentile(50.0), a(k), agg s = (f)(x) in r(k, x);`,
+  the `let` first / after the first clause / right before the aggregate, every aggregator (`let f = ascent::aggregators::min`
+  ..), non-recursive and recursive, on inputs with many groups of different sizes incl. empty ones (group_inputs).
 Inputs per program: a base input with an empty group / a singleton group / repeated values; the base with each
 relation emptied in turn (clause relations AND aggregated relations, the latter also all at once); aggregated
 relations holding rows for foreign keys only; singletons; everything empty; random inputs.
@@ -164,6 +168,106 @@ def gen_programs(tier, seed):
     return progs + par
 
 
+def bind_once(rule, lp, var="f"):
+    """the rule with its aggregator evaluated once by a `let` at body position lp (<= position of the aggregate).
+    Where the types allow: the bound value is monomorphic in its iterator type (`percentile`'s TInputIter; the `impl Iterator`
+    of a fn item bound by `let`), so it can be applied at ONE code site only.  A `let` in front of two clauses that the
+    generated code joins in either order (both orders are emitted, each with its own copy of the rest of the body) does
+    not compile (E0308 `expected closure, found a different closure`); lp = 0 is therefore used only with at most one
+    clause in front of the aggregate."""
+    body = [_copy(x) for x in rule["body"]]
+    ai = [i for i, it in enumerate(body) if it[0] == "agg"][0]
+    assert lp <= ai and body[ai][1] != "neg"
+    body[ai] = body[ai][:5] + [var]
+    body.insert(lp, ["letagg", var, body[ai][1], body[ai][2]])
+    shape = dict(rule["shape"], bound="let-first" if lp == 0 else ("let-before-agg" if lp == ai else "let-middle"))
+    return dict(rule, body=body, shape=shape)
+
+
+BOUND_KINDS = ["percentile", "min", "max", "sum", "count", "mean", "not"]
+
+
+def gen_bound_programs(tier, seed):
+    """rules that evaluate the aggregator ONCE (`let f = ..`) and apply the value per group; each program carries its own inputs"""
+    rng = lib.rng_for(seed, "C17", "progbound")
+    inputs = group_inputs(lib.rng_for(seed, "C17", "progboundinputs"), tier)
+    rules, recs = [], []
+    n = 0
+    reps = 1 if tier == "quick" else 4
+    for rep in range(reps):
+        for kind in BOUND_KINDS:
+            ps = (PS if rep == 0 else [rng.choice(PS)]) if kind == "percentile" else [(0, 1)]
+            for p in ps:
+                # (clauses, position of the aggregate): the aggregate is reached once per binding of the clauses before it
+                shapes = [(1, 1), (2, 2), (2, 1), (3, 3), (3, 2), (4, 4)]
+                take = shapes if (kind == "percentile" and p in PS[:3]) or tier != "quick" else [shapes[n % len(shapes)], shapes[(n + 2) % len(shapes)]]
+                for (nc, pos) in take:
+                    keyform = "var" if (n % 4) else "expr"
+                    use_res = (n % 3 == 0) and pos < nc
+                    r = make_rule("g%d" % n, kind, p, nc, pos, n + rep, n // 2 + rng.randint(0, 1), keyform, use_res, rng)
+                    lp = [0, 0, pos, rng.randint(0, max(0, pos - 1))][n % 4]
+                    if lp == 0 and pos >= 2:
+                        lp = 1      # see bind_once: a `let` in front of two clauses is shared by both orders of their join
+                    rules.append(bind_once(r, lp))
+                    n += 1
+    m = 0
+    for rep in range(reps):
+        for kind in BOUND_KINDS:
+            nc = 2 + (m % 2)
+            p = PS[m % len(PS)] if kind == "percentile" else (0, 1)
+            r0, r1 = make_rec_rules("h%d" % m, kind, p, nc, nc, m + rep, "var" if m % 2 else "expr", rng)
+            recs.append([r0, bind_once(r1, [1, nc, 1, 2][m % 4])])
+            m += 1
+    progs = []
+    for i in range(0, len(rules), 6):
+        progs.append(dict(id="bp%d" % len(progs), macro="ascent", rules=rules[i:i + 6], inputs=inputs))
+    for i in range(0, len(recs), 4):
+        progs.append(dict(id="bq%d" % (i // 4), macro="ascent", rules=[r for pair in recs[i:i + 4] for r in pair], inputs=inputs))
+    # the parallel macro: the bound value is shared by the workers (it must be Sync; every library aggregator is)
+    npar = 1 if tier == "quick" else max(1, len(progs) // 3)
+    step = max(1, len(progs) // npar)
+    progs += [dict(id=q["id"] + "par", macro="ascent_par", rules=q["rules"], inputs=inputs) for q in progs[::step]][:npar]
+    return progs
+
+
+def group_inputs(rng, tier):
+    """inputs with MANY groups of different sizes (empty ones among them) in the aggregated relations, reached through
+    several keys of the clause relations, plus the degenerate ones"""
+    ins = []
+    nrand = 4 if tier == "quick" else 16
+    for i in range(nrand):
+        keys = list(range(8))
+        sizes = [4, 3, 0, 1, 2, 6, 0, 5]
+        rng.shuffle(sizes)
+        dom = rng.choice([list(range(-20, 60)), list(range(0, 12)), [7 * v - 30 for v in range(40)]])
+        d = {}
+        d["a"] = [(k,) for k in keys if rng.random() < 0.9]
+        rng.shuffle(d["a"])
+        d["b"] = sorted(set((rng.choice(keys), rng.choice(keys)) for _ in range(rng.choice([6, 12, 20]))))
+        d["c"] = [(k,) for k in range(-1, 9) if rng.random() < 0.8] + [(v,) for v in rng.sample(dom, 6)]
+        d["r"], d["w"], d["u"] = [], [], []
+        for k, n in zip(keys, sizes):
+            vals = rng.sample(dom, min(n, len(dom)))
+            d["r"] += [(k, v) for v in vals] if i % 2 == 0 else [(v, k) for v in vals] + [(k, v) for v in vals[:2]]
+            d["w"] += [(k, v, z) for v in vals for z in range(rng.choice([1, 1, 2]))]
+        sizes2 = list(sizes)
+        rng.shuffle(sizes2)
+        for k, n in zip(keys, sizes2):
+            d["w"] += [(rng.choice(dom), rng.choice(dom), k) for _ in range(n)]
+        d["r"], d["w"] = sorted(set(d["r"])), sorted(set(d["w"]))
+        d["u"] = sorted(set((v,) for v in rng.sample(dom, rng.choice([1, 3, 7])) + [rng.choice(keys)]))
+        ins.append(("groups%d" % i, d))
+    base = dict(a=[(0,), (1,), (2,)], b=[(0, 1), (1, 1), (2, 0), (1, 2)], c=[(0,), (1,), (2,), (3,), (5,)],
+                r=[(1, 5), (1, -2), (2, 3), (3, 3)], w=[(1, 4, 0), (1, 4, 1), (1, -1, 0), (2, 2, 0), (2, 2, 1), (0, 1, 1)], u=[(3,), (-1,), (1,)])
+    ins.append(("base", base))
+    d = dict(base)
+    for rel in AGG_RELS:
+        d[rel] = []
+    ins.append(("aggregated-relations-empty", d))
+    ins.append(("all-empty", {rel: [] for rel, _ in IN_RELS}))
+    return ins
+
+
 def base_inputs(rng, tier):
     base = dict(a=[(0,), (1,), (2,)], b=[(0, 1), (1, 1), (2, 0), (1, 2)], c=[(0,), (1,), (2,), (3,), (5,)],
                 r=[(1, 5), (1, -2), (2, 3), (3, 3)], w=[(1, 4, 0), (1, 4, 1), (1, -1, 0), (2, 2, 0), (2, 2, 1), (0, 1, 1)], u=[(3,), (-1,), (1,)])
@@ -238,9 +342,20 @@ def rule_kind(rule):
 def r_item(it, kind):
     if it[0] == "cl":
         return "%s(%s)" % (it[1], ", ".join(r_arg(a) for a in it[2]))
+    if it[0] == "letagg":
+        # the aggregator VALUE, evaluated once per binding that reaches the `let`
+        _, var, k, p = it
+        if k == "percentile":
+            return "let %s = ascent::aggregators::percentile(%sf64)" % (var, repr(float(Fraction(p[0], p[1]))))
+        return "let %s = ascent::aggregators::%s" % (var, k)
     if it[0] == "agg":
-        _, k, p, rel, args = it
+        _, k, p, rel, args = it[:5]
         at = "%s(%s)" % (rel, ", ".join(r_arg(a) for a in args))
+        if len(it) > 5:
+            # the aggregator expression is the variable bound by an earlier `let`
+            if k == "not":
+                return "agg () = (%s)() in %s" % (it[5], at)
+            return "agg s = (%s)(%s) in %s" % (it[5], "" if k == "count" else "x", at)
         if k == "neg":
             return "!" + at
         if k == "not":
@@ -396,8 +511,10 @@ def eval_rule_once(rule, db, aggfun, stats=None):
                             break
                     if ok:
                         nxt.append(e2)
+        elif it[0] == "letagg":
+            nxt = envs          # binds the aggregator value only: no effect on the bindings of the rule's variables
         elif it[0] == "agg":
-            _, k, p, rel, args = it
+            _, k, p, rel, args = it[:5]
             rows = tuple(sorted(db.get(rel, ())))
             for env in envs:
                 pat, col = [], 0
@@ -498,7 +615,7 @@ def run(progs, inputs, tag="c17p"):
     impl = prog.build_and_run(tag, jobs, nbins=min(lib.NCPU, max(1, (len(jobs) + 1) // 2)))
     model = Model()
     mism = []
-    stats = dict(evaluations=0, nontrivial=set(), by_aggregator={}, by_clauses={}, by_position={}, by_key={}, by_rel={}, by_macro={},
+    stats = dict(evaluations=0, nontrivial=set(), by_aggregator={}, by_clauses={}, by_position={}, by_key={}, by_rel={}, by_macro={}, by_aggregator_expression={},
                  group_classes={}, nonempty_expected=0, samples=[])
     # pass 1: the python oracle, and the requests the model will be asked
     work = []
@@ -538,7 +655,8 @@ def run(progs, inputs, tag="c17p"):
         stats["evaluations"] += 1
         for key, val in (("by_aggregator", shape["kind"]), ("by_clauses", "%d%s" % (shape["nc"], "-recursive" if shape["rec"] else "")),
                          ("by_position", "first" if shape["pos"] == 0 else ("last" if shape["pos"] >= shape["nc"] else "middle")),
-                         ("by_key", shape["key"]), ("by_rel", shape["rel"]), ("by_macro", p["macro"])):
+                         ("by_key", shape["key"]), ("by_rel", shape["rel"]), ("by_macro", p["macro"]),
+                         ("by_aggregator_expression", shape.get("bound", "inline (evaluated per binding)"))):
             stats[key][val] = stats[key].get(val, 0) + 1
         for gc, n in gst.items():
             stats["group_classes"][gc] = stats["group_classes"].get(gc, 0) + n
